@@ -2565,6 +2565,14 @@ class sptensor:
                         newsz.append(max([self.shape[n], value.shape[m]]))
                     else:
                         newsz.append(max([self.shape[n], key_n.stop]))
+                    if (
+                        key_n.stop is not None
+                        and key_n.stop >= 0
+                        and (key_n.start is None or key_n.start >= 0)
+                        and len(range(key_n.start or 0, key_n.stop, key_n.step or 1))
+                        != value.shape[m]
+                    ):
+                        assert False, "RHS does not match range size"
                     m = m + 1
                 elif isinstance(key_n, (float, int)):
                     if self.ndims <= n:
